@@ -42,6 +42,14 @@ class RecordingIndex:
         self.entries.append(copy.deepcopy(ep))
 
 
+# spellings of a boolean the configuration validator documents as equivalent (configs/validate.py:_coerce_bool)
+BOOL_SPELLINGS = [(True, False), ("true", "false"), ("on", "off"), (1, 0), ("1", "0"), (" Yes", " No ")]
+
+
+def _spell(b: bool, k: int):
+    return BOOL_SPELLINGS[k % len(BOOL_SPELLINGS)][0 if b else 1]
+
+
 class Session:
     """a sequence of turns on one engine state (one behaviour of Turn.tla)"""
 
@@ -71,7 +79,7 @@ class Session:
             "t1": {"cache": {"enabled": False}},
             "t2": {"sim_threshold": -1.0, "cache": {"enabled": False}},
             "t4": {"enabled": not inp.get("kill", False), "snapshot_dir": self.snapdir, "snapshot_every_n_turns": 1},
-            "t3": {"allow_reflection": bool(inp.get("allow_refl", False))},
+            "t3": {"allow_reflection": _spell(bool(inp.get("allow_refl", False)), getattr(self, "bool_spelling", 0))},
             "scheduler": {"enabled": bool(inp.get("sched", False)), "quantum_ms": 100,
                           "budgets": {"ops_reflection": int(inp.get("ops_cap", 5)), "time_ms_reflection": 6000}},
             "graph": {"enabled": bool(inp.get("graph", False))},
